@@ -612,8 +612,13 @@ def first_selection_order(names, arms):
 
 # ------------------------------------------------------------------------------------------------ leaves
 def leaf_table(leaf):
-    """`&*NAME` / `&NAME` / `&**NAME` / `NAME.deref()` / `NAME` (optionally after `return`-less position) -> NAME, else None"""
+    """`&*NAME` / `&NAME` / `&**NAME` / `NAME.deref()` / `NAME` / a tuple ending in one of these -> NAME, else None"""
     t = list(leaf)
+    if t and t[0] == ("p", "(") and matching(t, 0) == len(t) - 1:
+        # a tuple `(extra data, .., <table>)`: the table is its last component (the others carry e.g. the first run of
+        # the map for an error message; they do not take part in the selection)
+        parts = [x for x in split_top(t[1:-1], ",") if x]
+        return leaf_table(parts[-1]) if parts else None
     while t and t[0] in (("p", "&"), ("p", "*")):
         t = t[1:]
     if len(t) == 1 and t[0][0] == "id" and "::" not in t[0][1]:
